@@ -209,6 +209,70 @@ def r24(facts, res):
         res.bad(R, 'gc-before-graph', loc_of(b), 'StateGraph::new can be reached without garbage collection')
 
 
+def r26(facts, res):
+    """gc() compacts the state vector and the edge vector ALIKE: an element of either input is carried over only under a
+    successful membership test in the reachable set.  If only one of the two parallel vectors is filtered they no longer line
+    up, and every state after a removed one is paired with another state's edges."""
+    import c15
+    R = 'R2.6'
+    bs = [x for x in facts.lib_bodies(['lrtable']) if strip_generics(x.path) == 'lrtable::pager::gc']
+    if len(bs) != 1:
+        res.lost(R, 'lrtable::pager::gc not found')
+        return
+    b = bs[0]
+    loops = b.loops()
+    drains = [(bb, t) for bb, t in b.calls_named('drain') if t['args'] and b.op_root(t['args'][0])[0] in (1, 3)]
+    if len(drains) != 2:
+        res.lost(R, 'expected the state vector and the edge vector each to be drained once in gc, found %d drains' % len(drains))
+        return
+    contains = [bb for bb, t in b.calls_named('contains') if 'HashSet' in (callee_of(t).get('self_ty') or cpath(t) or '')]
+    for bb, t in drains:
+        which = {1: 'states', 3: 'edges'}[b.op_root(t['args'][0])[0]]
+        key = 'filtered:' + which
+        holds, adapters, consumers = c15.flow(b, t['dest']['l'])
+        ok, why = False, ''
+        nexts = [(cb, ct) for cb, ct, ai in consumers if cname(ct) == 'next']
+        if nexts:
+            cb = nexts[0][0]
+            inl = [h for h in loops if cb in loops[h]]
+            if inl:
+                h = min(inl, key=lambda x: len(loops[x]))
+                pushes = [pb for pb, pt in b.calls_named('push', loops[h])]
+                cin = [c for c in contains if c in loops[h]]
+                if not pushes:
+                    why = 'the loop over %s pushes nothing' % which
+                elif not cin:
+                    why = 'the loop over %s carries every element over: no membership test in the reachable set' % which
+                else:
+                    free = b.reachable([h], avoid=set(cin))
+                    esc = [pb for pb in pushes if pb in free]
+                    # the push of the bookkeeping vector `offsets` is unconditional by design: only pushes onto the OUTPUT count
+                    outs = []
+                    for pb in pushes:
+                        pt = b.term(pb)
+                        tgt = b.lty(b.op_root(pt['args'][0])[0])
+                        if 'StIdx<usize>' in tgt and 'HashMap' not in tgt and 'Itemset' not in tgt:
+                            continue
+                        outs.append(pb)
+                    esc = [pb for pb in outs if pb in free]
+                    if outs and not esc:
+                        ok = True
+                    else:
+                        why = 'an element of %s is pushed onto the result without passing the membership test (line %s)' % (which, b.term((esc or pushes)[0]).get('line'))
+        else:
+            if any(a in ('filter', 'filter_map') for a in adapters):
+                # the predicate closure must consult the reachable set
+                cl = [c for c in facts.closures_of(b) if c.calls_named('contains')]
+                ok = bool(cl)
+                why = '' if ok else 'the filter over %s does not consult the reachable set' % which
+            else:
+                why = '%s are carried over by an iterator chain (%s) with no filter on the reachable set' % (which, ' -> '.join(adapters) or 'collect')
+        if ok:
+            res.ok(R, key, loc_of(b, bb), '%s are carried over only when in the reachable set' % which)
+        else:
+            res.bad(R, key, loc_of(b, bb), why + ': the two vectors gc returns no longer line up')
+
+
 def r25(facts, res):
     """re-processing a state regenerates ALL its edges: every site that records an edge of the state being processed must
     overwrite a previous edge on that symbol (sibling agreement of the three recording sites)"""
@@ -253,3 +317,4 @@ def run(facts, res):
     r22(facts, res)
     r23(facts, res)
     r24(facts, res)
+    r26(facts, res)
